@@ -1,4 +1,107 @@
-import Anything.Model.Cbor
+import Anything.Lemmas.Index
+/-!
+# C14 — fact lookups do not depend on how the index was built
+
+Abstract index (`Model/Index.lean`): segments of documents, a build parameterised by the
+number of indexing workers and a *schedule* (which worker takes which document, in which
+order the workers' segments end up), top-1 ranking under an arbitrary score with ties
+broken by index order. Proved: with ONE worker — which is what `src/db.rs` asks for,
+re-extracted from the source on every run — every schedule yields the same index, so the
+in-memory, first on-disk and reopened on-disk sessions answer every query alike, ties
+included; with several workers the answer is still schedule-independent whenever the top
+score is unique, and is NOT otherwise (counterexample). tantivy's scheduler and its `f32`
+BM25 scores are runtime behaviour outside the model (partial; covered by repeated real
+builds in the correspondence).
+-/
+
 namespace Anything.Props.C14
-theorem C14_placeholder : True := trivial
+open Anything Anything.Index
+
+/-- **C14 (the source asks for one indexing thread, everywhere).** Every index-writer
+construction in `src/db.rs` is `writer_with_num_threads(1, _)`. -/
+theorem C14_one_thread : Generated.Db.writers.all (· == some 1) = true ∧ Generated.Db.writers ≠ [] := by
+  decide
+
+/-- A schedule is admissible for `w` workers when the segment order is a permutation of
+the workers. -/
+def Admissible (w : Nat) (σ : Schedule) : Prop := σ.order.Perm (List.range w)
+
+theorem takenBy_one (σ : Schedule) (docs : List Doc) (i : Nat) : takenBy σ 1 0 i docs = docs := by
+  induction docs generalizing i with
+  | nil => rfl
+  | cons d rest ih => simp [takenBy, Nat.mod_one, ih]
+
+/-- **C14 (one worker: the index is the shipped order, whatever the schedule).** -/
+theorem C14_single_writer (σ : Schedule) (h : Admissible 1 σ) (docs : List Doc) :
+    build 1 σ docs = [docs] := by
+  unfold Admissible at h
+  have : σ.order = [0] := by
+    have := h.length_eq
+    simp only [List.range_one, List.length_cons, List.length_nil] at this
+    match ho : σ.order, this with
+    | [x], _ =>
+      rw [ho] at h
+      have := h.subset (by simp : x ∈ [x])
+      simp at this
+      rw [this]
+  simp [build, this, takenBy_one]
+
+/-- **C14 (one worker: every session answers alike).** For any score (ties included) and
+any two admissible schedules the top document is the same. -/
+theorem C14_single_writer_lookup (σ σ' : Schedule) (h : Admissible 1 σ) (h' : Admissible 1 σ')
+    (docs : List Doc) (score : Doc → Option Nat) :
+    top1 score (build 1 σ docs) = top1 score (build 1 σ' docs) := by
+  rw [C14_single_writer σ h, C14_single_writer σ' h']
+
+/-- The three kinds of session the property names. A reopened session reads the index an
+earlier on-disk session committed. -/
+inductive Session | inMemory | onDiskFirst | reopened
+
+/-- The index a session answers from: built from the shipped documents with the number of
+threads the source asks for, under whatever schedule that build happened to have. -/
+def sessionIndex (schedules : Session → Schedule) (s : Session) : Idx :=
+  match s with
+  | .inMemory => build 1 (schedules .inMemory) shippedDocs
+  | .onDiskFirst => build 1 (schedules .onDiskFirst) shippedDocs
+  | .reopened => build 1 (schedules .onDiskFirst) shippedDocs
+
+/-- **C14 (sessions).** In-memory, first on-disk and reopened sessions return the same
+constant for every query (every score function), including queries several constants
+match equally well. -/
+theorem C14_sessions (schedules : Session → Schedule) (h : ∀ s, Admissible 1 (schedules s))
+    (score : Doc → Option Nat) (s s' : Session) :
+    top1 score (sessionIndex schedules s) = top1 score (sessionIndex schedules s') := by
+  cases s <;> cases s' <;> simp only [sessionIndex] <;>
+    exact C14_single_writer_lookup _ _ (h _) (h _) _ _
+
+/-- **C14 (any number of workers, no tie at the top).** If one document strictly outscores
+all others, every arrangement of the same documents into segments returns it. -/
+theorem C14_tie_free (ix ix' : Idx) (hperm : ix.flatten.Perm ix'.flatten) (score : Doc → Option Nat)
+    (d0 : Doc) (s0 : Nat) (hd : d0 ∈ ix.flatten) (hs : score d0 = some s0)
+    (huniq : ∀ d ∈ ix.flatten, d ≠ d0 → ∀ s, score d = some s → s < s0) :
+    top1 score ix = top1 score ix' := by
+  rw [top1_unique_max score ix d0 s0 hd hs huniq,
+    top1_unique_max score ix' d0 s0 (hperm.subset hd) hs
+      (fun d hd' => huniq d (hperm.symm.subset hd'))]
+
+/-- **C14 (the hypotheses are needed).** With two workers and two equally scored documents
+two schedules disagree — which is what eight indexing threads did before the repair
+recorded in `known_findings.jsonl` (af518f7). -/
+theorem C14_counterexample :
+    let a : Doc := ⟨[['p']], 0⟩
+    let b : Doc := ⟨[['p']], 1⟩
+    let σ : Schedule := ⟨fun i => i, [0, 1]⟩
+    let σ' : Schedule := ⟨fun i => i, [1, 0]⟩
+    top1 (fun _ => some 1) (build 2 σ [a, b]) = some a ∧ top1 (fun _ => some 1) (build 2 σ' [a, b]) = some b := by
+  decide
+
+/-- Non-vacuity: the shipped documents, and an admissible schedule. -/
+example : Admissible 1 ⟨fun _ => 0, [0]⟩ ∧ shippedDocs.length = Generated.facts.length := by
+  refine ⟨List.Perm.refl _, ?_⟩
+  have : ∀ (l : List Generated.FactRow) (i : Nat), (docsFrom i l).length = l.length := by
+    intro l; induction l with
+    | nil => intro i; rfl
+    | cons r rest ih => intro i; simp [docsFrom, ih]
+  exact this _ _
+
 end Anything.Props.C14
